@@ -24,7 +24,10 @@ META = dict(
                 'behaviour as transcribed; gzip and raw io modes are covered by the oracle only (zlib is not modelled).'),
 )
 
-GEN = {}
+GEN = {
+    # async_io_buf::next_size (the second next_size of the TU; the first one is hash_map<>::next_size from private/hash_map.h)
+    'Gen_C03': dict(src='src/http_response.cpp', functions=[('next_size', 'g_next_size', 'next_size', 1)]),
+}
 
 PATTERN = bytes(((i * 131 + 7) % 251) for i in range(251 * 4))
 
